@@ -31,6 +31,11 @@ let unopenable = lazy (match create (z_of_int 2) Z0 [(z_of_int 1, z_of_int 1)] w
 let starts_with p s = String.length s >= String.length p && String.sub s 0 (String.length p) = p
 let codes_of_string s = List.init (String.length s) (fun i -> z_of_int (Char.code s.[i]))
 (* the file a name resolves to: the name cleaned lexically (the extracted [path_clean], Model/Path.v) *)
+let phys_name_of (name : string) : string =
+  let elems p = List.map codes_of_string (List.filter (fun x -> x <> "" && x <> ".") (String.split_on_char '/' p)) in
+  let table = Hashtbl.fold (fun l t acc -> (elems l, elems t) :: acc) dirlinks [] in
+  string_of_codes (phys_name table (codes_of_string name))
+
 let resolve name = if name = "" then "" else string_of_codes (path_clean (codes_of_string name))
 let lookup name : handle option =
   if name = "BADPATTERN" then Lazy.force unopenable      (* a malformed file pattern: reading the item fails *)
@@ -358,12 +363,12 @@ let () =
        let npts = List.fold_left (fun n (_, c) -> n + int_of_z c) 0 layout in
        let long = textout kv = ToFull && geti kv "fill" 1 = 1 && npts >= 150 in
        (match f with
-        | Some h -> set_file (phys_name (get kv "dest" ""))
+        | Some h -> set_file (phys_name_of (get kv "dest" ""))
                       (if long then create (getz kv "m" 2) (z_of_hex (get kv "x" "3f000000")) layout else Some h)
         | None -> ());
        obs "cligenerate %s" (status_str (textout_status (textout kv) st))
      | ToFile ->
-       (match f with Some h -> set_file (phys_name (get kv "dest" "")) (Some h) | None -> ());
+       (match f with Some h -> set_file (phys_name_of (get kv "dest" "")) (Some h) | None -> ());
        (match st, f with
         | StOk, Some h ->
           (match gen_constraints layout (geti kv "max" 10) (geti kv "fill" 1 = 1) (int_of_z now) pl with
